@@ -48,6 +48,10 @@ def _synparam_at(
         # retrieve most recent value
         res = transform(value.peek())
 
+        # broadcast over multiple selectors per synapse
+        if selector.ndim == res.ndim + 1:
+            res = res.unsqueeze(-1).expand(*selector.shape)
+
     # delayed access
     else:
         # bound the selector
